@@ -131,7 +131,9 @@ def build_pipes(pipes, log):
         rops, mops = [], []
         for oi, od in enumerate(pd["ops"]):
             par = od.get("par", [])
-            if pd.get("scratch_parents") and par:
+            if pd.get("scratch_parents") and par and oi % 2:
+                op = p.new_operator(rops[j] for j in par)      # parents as a one-shot iterable
+            elif pd.get("scratch_parents") and par:
                 # a caller that builds the parent list in a scratch list and reuses it for the next operator
                 scratch[:] = [rops[j] for j in par]
                 op = p.new_operator(scratch)
@@ -180,7 +182,7 @@ class Chaos:
     FAULTS = ("oversell_cpu", "oversell_ram", "oversell_during_writeout", "sus_not_boundary", "sus_suspending", "sus_suspended",
               "sus_unknown", "sus_other_pool", "sus_twice", "pool_range_asg", "pool_range_sus",
               "dep_pending_parent", "dep_order", "dep_late", "construct_completed", "construct_assigned",
-              "construct_cpu0", "construct_ram0", "construct_empty", "construct_dup", "opcount")
+              "construct_cpu0", "construct_ram0", "construct_empty", "construct_dup", "construct_suspending", "opcount")
 
     def __init__(self, rng, cfg, knobs, built, mex, unit):
         self.r = rng
@@ -260,6 +262,10 @@ class Chaos:
             av[pid][1] -= ram
             cmds.append({"k": "asg", "id": self.label(), "pl": bi, "ops": ops, "cpu": fstr(cpu),
                          "ram": fstr(ram), "pool": pid})
+            if r.random() < 0.1:
+                cmds[-1]["force"] = True
+            if r.random() < 0.1:
+                cmds[-1]["resume"] = True
         if k["fault"] and not self.fault_done and t >= k["fault_tick"]:
             f = self.make_fault(k["fault"], t, cmds, av)
             if f is not None:
@@ -385,9 +391,12 @@ class Chaos:
                 a = fr * F(5, 8) if cfg["exact"] else fr * F(617, 1000)
                 rams = [a, a]
             out = list(cmds)
+            forced = r.random() < 0.4      # "force_run" must not buy a way around the admission check
             for (bi, i), c, ram in zip(ro, cp, rams):
                 out.append({"k": "asg", "id": self.label(), "pl": bi, "ops": [i], "cpu": fstr(c),
                             "ram": fstr(ram), "pool": pid, "fault": kind})
+                if forced:
+                    out[-1]["force"] = True
             return out
         if kind.startswith("sus_"):
             act = [(p, c) for p in pools for c in p.active]
@@ -519,6 +528,12 @@ class Chaos:
                 bi, i = r.choice(done)
                 extra = [x[1] for x in ro if x[0] == bi][:1] if cfg["multi"] and r.random() < 0.5 else []
                 base.update(pl=bi, ops=extra + [i])
+            elif kind == "construct_suspending":
+                live = [(bi, i) for bi, b in enumerate(self.built) for i, m in enumerate(b.mops) if m.state == M.SU]
+                if not live:
+                    return None
+                bi, i = r.choice(live)
+                base.update(pl=bi, ops=[i])
             elif kind == "construct_assigned":
                 live = [(bi, i) for bi, b in enumerate(self.built) for i, m in enumerate(b.mops)
                         if m.state in (M.A, M.R, M.SU)]
@@ -760,12 +775,14 @@ def run(scn, rng=None):
                 try:
                     cpu_arg = int(cpu) if cpu.denominator == 1 else float(cpu)
                     a = Assignment(ops=[b.rops[i] for i in idxs], cpu=cpu_arg, ram=float(ram),
-                                   priority=Priority[b.prio], pool_id=cmd["pool"], pipeline_id=b.p.pipeline_id)
+                                   priority=Priority[b.prio], pool_id=cmd["pool"], pipeline_id=b.p.pipeline_id,
+                                   is_resume=bool(cmd.get("resume")), force_run=bool(cmd.get("force")))
                 except Exception as e:  # noqa: BLE001 - any refusal counts as a rejection
                     rexc = e
                 if (mrej is None) != (rexc is None):
                     if rexc is None:
-                        raise Violation("C02.construct.accepted", {"cmd": cmd, "model": str(mrej)}, t)
+                        rule = "C10.assigned_during_writeout" if fault == "construct_suspending" else "C02.construct.accepted"
+                        raise Violation(rule, {"cmd": cmd, "model": str(mrej)}, t)
                     raise Violation("EX.crash", {"where": "Assignment()", "cmd": cmd, "exc": repr(rexc)[:200]}, t)
                 if mrej is not None:
                     # the executor was never involved: the run goes on without this assignment (operators listed before
@@ -1049,3 +1066,87 @@ def _after_reject(rj, ex, built, prev, t):
         st = built[bi].rops[oi].state().value
         if st in ("running", "completed"):
             raise Violation("C01.dep.executed", {"op": [bi, oi], "state": st}, t)
+
+
+# ---------------------------------------------------------------------------
+# solo container with Segment objects that the caller reuses across runs (C05)
+# ---------------------------------------------------------------------------
+def run_solo_reuse(scn):
+    """The same Segment objects (templates kept by the caller) are put into fresh operators and run alone in a fresh
+    Executor several times - other tick rate, other CPU count, other allocation each time.  Every run must follow the
+    time and memory model for *its* parameters."""
+    import_repo()
+    from eudoxia.executor import Executor
+    from eudoxia.executor.assignment import Assignment
+    from eudoxia.workload import Pipeline
+    from eudoxia.workload.pipeline import Segment
+    from eudoxia.utils import Priority
+    out = {"violation": None, "discard": None, "faults": {}, "probes": {}, "ticks": 0, "nontrivial": False, "sim_s": 0.0}
+    sig = []
+    try:
+        templates = [[Segment(baseline_cpu_seconds=float(b), cpu_scaling=law, memory_gb=None if mem is None else float(mem),
+                              storage_read_gb=float(read)) for (b, law, mem, read) in op] for op in scn["ops"]]
+        for k, rn in enumerate(scn["runs"]):
+            tps, cpu, ram = rn["tps"], frac(rn["cpu"]), frac(rn["ram"])
+            mops = []
+            for oi, op in enumerate(scn["ops"]):
+                segs = [(frac(b), law, None if mem is None else frac(mem), frac(read)) for (b, law, mem, read) in op]
+                mops.append(M.MOp((0, oi), segs, [mops[-1]] if mops else []))
+            try:
+                want = solo_outcome(mops, cpu, ram, tps, False)
+            except Discard:
+                out["probes"]["run_in_band"] = out["probes"].get("run_in_band", 0) + 1
+                continue
+            p = Pipeline("solo%d" % k, Priority.BATCH_PIPELINE)
+            rops = []
+            for segs in templates:
+                o = p.new_operator([rops[-1]] if rops else None)
+                for sg in segs:
+                    o.add_segment(sg)                 # the very same Segment objects as in the previous runs
+                rops.append(o)
+            ex = Executor(num_pools=1, cpus_per_pool=max(1, int(cpu) + 1), ram_gb_per_pool=float(ram) * 2 + 1,
+                          ticks_per_second=tps, multi_operator_containers=True)
+            a = Assignment(ops=rops, cpu=int(cpu) if cpu.denominator == 1 else float(cpu), ram=float(ram),
+                           priority=Priority.BATCH_PIPELINE, pool_id=0, pipeline_id=p.pipeline_id)
+            res = ex.run_one_tick([], [a])
+            t = 1
+            while not res and t < want[1] + 50:
+                res = ex.run_one_tick([], [])
+                t += 1
+            out["ticks"] += t
+            out["sim_s"] += t / tps
+            got = ("none", t) if not res else (("oom" if res[0].failed() else "ok"), t)
+            sig.append(got[0])
+            if got != want:
+                raise Violation("C05.reused_segments", {"run": k, "tps": tps, "cpus": float(cpu), "ram": float(ram),
+                                                        "outcome": list(got), "model": list(want),
+                                                        "earlier_runs": scn["runs"][:k]}, t)
+            if got[0] == "oom":
+                out["nontrivial"] = True
+        out["probes"]["solo_runs"] = len(scn["runs"])
+    except Violation as v:
+        out["violation"] = v.to_json()
+    out["faults"] = {"segment_objects_reused_across_runs": len(scn["runs"])}
+    out["sig"] = digest([scn["ops"], scn["runs"], sig])
+    return out
+
+
+def gen_solo_reuse(r):
+    from .exgen import qty, LAWS_ALL
+    ops = []
+    base_tps = r.choice([2, 5, 10, 20])
+    for _ in range(r.randint(1, 3)):
+        segs = []
+        for _ in range(r.choice([1, 1, 2])):
+            b = qty(r, False, ("tiny", "small", "mid")) / base_tps
+            read = qty(r, False, ("zero", "small", "mid")) * F(20, base_tps)
+            mem = None if r.random() < 0.6 else fstr(qty(r, False, ("small", "mid")) * F(20, base_tps))
+            segs.append([fstr(b), r.choice(LAWS_ALL), mem, fstr(read)])
+        ops.append(segs)
+    runs = []
+    for _ in range(r.randint(2, 4)):
+        runs.append({"tps": r.choice([1, 2, 3, 5, 10, 20, 50, 100]), "cpu": fstr(F(r.choice([1, 1, 2, 3, 4, 8]))),
+                     "ram": fstr(F(r.choice([2, 5, 10, 40, 200])) + F(37, 1000))})
+    if r.random() < 0.5:
+        runs[1]["cpu"] = runs[0]["cpu"]          # same CPU count, other tick rate: a stale per-CPU cache would show
+    return {"kind": "solo", "ops": ops, "runs": runs}
